@@ -965,7 +965,7 @@ Proof.
         -- apply SLI_decide; auto.
            intros t Hj Hl Hn Hd. split; [simpl; discriminate|]. split; [destruct t; exact Hn|].
            intros p. apply status_eqb_eq in Es. rewrite (status_at_nth _ _ _ Hj) in Es.
-           eapply sinv_stop_completed; eauto. destruct t; exact Hn.
+           eapply sinv_stop_completed; eauto.
         -- apply SLI_decide; auto.
            intros t Hj Hl Hn Hd. split; [simpl; discriminate|]. split; [apply nrf_stop|].
            intros p. eapply sinv_stop; eauto.
@@ -1063,4 +1063,172 @@ Theorem sim_prefix_once_ordered evs st x :
 Proof.
   intros Hg F i t Hi. apply sinv_runs_ok. eapply run_SSI; eauto.
   intros [|j] t' Hj; simpl in Hj; discriminate.
+Qed.
+
+(* ================================================================== *)
+(* frame: the record of a run that is not live never changes again       *)
+(* ================================================================== *)
+Definition same_ghost (t t' : tr) : Prop :=
+  past t' = past t /\ cur t' = cur t /\ dcur t' = dcur t /\ fin t' = fin t.
+Definition keeps (t t' : tr) : Prop :=
+  (exists m, past t' = past t ++ m) /\
+  (fin t <> Live -> same_ghost t t' \/ exists m, past t' = runs_of t ++ m).
+Definition keeps_all (ts ts' : list tr) : Prop :=
+  forall j t, nth_error ts j = Some t -> exists t', nth_error ts' j = Some t' /\ keeps t t'.
+
+Lemma same_ghost_keeps t t' : same_ghost t t' -> keeps t t'.
+Proof. intros H. split; [exists []; rewrite app_nil_r; apply H|]. intros _. left. exact H. Qed.
+
+Lemma keeps_refl t : keeps t t.
+Proof. apply same_ghost_keeps. repeat split. Qed.
+
+Lemma keeps_live t t' : fin t = Live -> past t' = past t -> keeps t t'.
+Proof. intros Hl Hp. split; [exists []; rewrite app_nil_r; exact Hp|]. intros N. congruence. Qed.
+
+Lemma keeps_trans t1 t2 t3 : keeps t1 t2 -> keeps t2 t3 -> keeps t1 t3.
+Proof.
+  intros ((m1 & P1) & K1) ((m2 & P2) & K2). split.
+  - exists (m1 ++ m2). rewrite P2, P1, app_assoc. reflexivity.
+  - intros N. destruct (K1 N) as [(Sp & Sc & Sd & Sf)|(m & Hm)].
+    + assert (N2 : fin t2 <> Live) by congruence.
+      destruct (K2 N2) as [(Sp' & Sc' & Sd' & Sf')|(m' & Hm')].
+      * left. repeat split; congruence.
+      * right. exists m'. rewrite Hm'. unfold runs_of. congruence.
+    + right. exists (m ++ m2). rewrite P2, Hm, app_assoc. reflexivity.
+Qed.
+
+Lemma keeps_all_refl ts : keeps_all ts ts.
+Proof. intros j t Hj. exists t. split; auto. apply keeps_refl. Qed.
+
+Lemma keeps_all_trans a b c : keeps_all a b -> keeps_all b c -> keeps_all a c.
+Proof.
+  intros H1 H2 j t Hj. destruct (H1 j t Hj) as (t' & Hj' & K1). destruct (H2 j t' Hj') as (t'' & Hj'' & K2).
+  exists t''. split; auto. eapply keeps_trans; eauto.
+Qed.
+
+Lemma keeps_all_upd i f ts : (forall t, nth_error ts i = Some t -> keeps t (f t)) -> keeps_all ts (upd i f ts).
+Proof.
+  intros H j t Hj. destruct (Nat.eq_dec i j) as [<-|N].
+  - exists (f t). split; [apply nth_upd_same; auto|apply H; auto].
+  - exists t. split; [rewrite nth_upd_other; auto|apply keeps_refl].
+Qed.
+
+Lemma keeps_all_map f ts : (forall t, keeps t (f t)) -> keeps_all ts (map f ts).
+Proof. intros H j t Hj. exists (f t). split; [rewrite nth_error_map, Hj; reflexivity|apply H]. Qed.
+
+Lemma sg_write bk new rest p t : same_ghost t (t_write bk new rest p t).
+Proof. repeat split. Qed.
+Lemma keeps_emit bk k t : keeps t (t_emit bk k t).
+Proof. unfold t_emit. destruct (proc t); try apply keeps_refl. apply same_ghost_keeps, sg_write. Qed.
+Lemma keeps_finish bk t : keeps t (t_finish bk t).
+Proof. unfold t_finish. destruct (proc t); try apply keeps_refl. apply same_ghost_keeps, sg_write. Qed.
+Lemma keeps_fail bk k t : keeps t (t_fail bk k t).
+Proof. unfold t_fail. destruct (proc t); try apply keeps_refl. apply same_ghost_keeps, sg_write. Qed.
+Lemma keeps_take t : keeps t (take_nrf t).
+Proof. apply same_ghost_keeps. repeat split. Qed.
+Lemma keeps_seen_cstat c n t : keeps t (set_cstat c (add_seen n t)).
+Proof. apply same_ghost_keeps. repeat split. Qed.
+Lemma keeps_resume bk reps t : keeps t (t_resume bk reps t).
+Proof.
+  split; [eexists; reflexivity|]. intros _. right. exists []. rewrite app_nil_r. reflexivity.
+Qed.
+Lemma keeps_observe t : keeps t (t_observe t).
+Proof.
+  unfold t_observe. destruct (fin t) eqn:E; try apply keeps_refl.
+  destruct (status_of t); try apply keeps_refl; apply keeps_live; auto.
+Qed.
+
+Lemma past_kill bk late t : past (t_kill bk late t) = past t.
+Proof. unfold t_kill. destruct (proc t); reflexivity. Qed.
+Lemma past_pause bk late t : past (set_fin Decided (t_pause bk late t)) = past t.
+Proof. unfold t_pause, drop_window. destruct bk; simpl; rewrite past_kill; reflexivity. Qed.
+Lemma past_stop bk late t : past (set_fin Decided (t_stop bk late t)) = past t.
+Proof. unfold t_stop, drop_window. destruct bk; simpl; rewrite past_kill; reflexivity. Qed.
+
+Lemma fetch_generic_keeps ids : forall ts ts' b, fetch_generic ids ts = (ts', b) -> keeps_all ts ts'.
+Proof.
+  induction ids as [|i r IH]; intros ts ts' b F; simpl in F.
+  - inversion F; subst. apply keeps_all_refl.
+  - destruct (nth_error ts i) as [t|] eqn:E; [|eapply IH; eauto].
+    destruct (fetch_generic r _) as [ts2 b2] eqn:F2. inversion F; subst.
+    eapply keeps_all_trans; [|eapply IH; eauto].
+    apply keeps_all_upd. intros t0 _. apply keeps_seen_cstat.
+Qed.
+Lemma fetch_sim_polled_keeps ids : forall ts ts' b, fetch_sim_polled ids ts = (ts', b) -> keeps_all ts ts'.
+Proof.
+  induction ids as [|i r IH]; intros ts ts' b F; simpl in F.
+  - inversion F; subst. apply keeps_all_refl.
+  - destruct (nth_error ts i) as [t|] eqn:E; [|eapply IH; eauto].
+    destruct (fetch_sim_polled r _) as [ts2 b2] eqn:F2. inversion F; subst.
+    eapply keeps_all_trans; [|eapply IH; eauto].
+    apply keeps_all_upd. intros t0 _. apply keeps_take.
+Qed.
+Lemma fetch_keeps bk ids ts ts' b : fetch bk ids ts = (ts', b) -> keeps_all ts ts'.
+Proof.
+  destruct bk; simpl; intros F.
+  - destruct (fetch_generic ids ts) as [ts1 b1] eqn:F1. inversion F; subst. eapply fetch_generic_keeps; eauto.
+  - unfold fetch_sim in F. destruct (fetch_sim_polled ids ts) as [ts1 b1] eqn:F1. inversion F; subst.
+    eapply keeps_all_trans; [eapply fetch_sim_polled_keeps; eauto|]. apply keeps_all_map. apply keeps_take.
+Qed.
+
+(* a result is only delivered to a trial whose run is live *)
+Definition WI (batch : list (nat * rep)) (done : list nat) (ts : list tr) : Prop :=
+  forall i r, In (i, r) batch -> ~ In i done -> forall t, nth_error ts i = Some t -> fin t = Live.
+
+Lemma update_loop_keeps bk batch : forall decs done ts out ts' out' done',
+  WI batch done ts -> update_loop bk batch decs done ts out = (ts', out', done') -> keeps_all ts ts'.
+Proof.
+  induction batch as [|[i r] rest IH]; intros decs done ts out ts' out' done' H F; simpl in F.
+  - inversion F; subst. apply keeps_all_refl.
+  - destruct (mem_nat i done) eqn:Em.
+    + eapply IH; [|exact F]. intros j r' Hin. apply H. right; auto.
+    + assert (Hnd : ~ In i done) by (intros Hin; apply mem_nat_In in Hin; congruence).
+      assert (Hlive : forall t, nth_error ts i = Some t -> fin t = Live) by (apply (H i r); [left; auto|auto]).
+      assert (K1 : keeps_all ts (upd i (t_deliver r) ts)).
+      { apply keeps_all_upd. intros t Ht. apply keeps_live; auto. }
+      assert (Kdec : forall f, (forall t, past (f t) = past t) ->
+                     keeps_all ts (upd i f (upd i (t_deliver r) ts))).
+      { intros f Hf. eapply keeps_all_trans; [exact K1|]. apply keeps_all_upd. intros t1 Ht1.
+        apply nth_upd_inv in Ht1. destruct Ht1 as [[N _]|[_ [t [Ht Et]]]]; [congruence|subst t1].
+        apply keeps_live; [simpl; auto|apply Hf]. }
+      assert (WIdec : forall f, WI rest (i :: done) (upd i f (upd i (t_deliver r) ts))).
+      { intros f j r' Hin Hnd' t Ht. assert (N : i <> j) by (intros ->; apply Hnd'; left; auto).
+        rewrite !nth_upd_other in Ht by auto. apply (H j r'); [right; auto| |auto].
+        intros Hd. apply Hnd'. right; auto. }
+      destruct (next_dec decs) as [[d late] decs'] eqn:En.
+      destruct d.
+      * eapply keeps_all_trans; [exact K1|]. eapply IH; [|exact F].
+        intros j r' Hin Hnd' t Ht.
+        apply nth_upd_inv in Ht. destruct Ht as [[N Ht]|[Eij [t0 [Ht Et]]]].
+        -- apply (H j r'); [right; auto|auto|auto].
+        -- subst j t. simpl. auto.
+      * eapply keeps_all_trans; [apply (Kdec (fun t => set_fin Decided (t_pause bk late t)))|].
+        -- intros t. apply past_pause.
+        -- eapply IH; [|exact F]. apply WIdec.
+      * destruct (status_eqb (status_at ts i) Completed).
+        -- eapply keeps_all_trans; [apply (Kdec (set_fin Decided))|].
+           ++ reflexivity.
+           ++ eapply IH; [|exact F]. apply WIdec.
+        -- eapply keeps_all_trans; [apply (Kdec (fun t => set_fin Decided (t_stop bk late t)))|].
+           ++ intros t. apply past_stop.
+           ++ eapply IH; [|exact F]. apply WIdec.
+Qed.
+
+Lemma observe_keeps ids : forall ts, keeps_all ts (observe ids ts).
+Proof.
+  induction ids as [|i r IH]; intros ts; simpl; [apply keeps_all_refl|].
+  eapply keeps_all_trans; [|apply IH]. apply keeps_all_upd. intros t _. apply keeps_observe.
+Qed.
+
+Lemma in_pend_of i r b : In (i, r) b -> In r (pend_of i b).
+Proof.
+  intros H. unfold pend_of. change r with (snd (i, r)). apply in_map. apply filter_In. split; auto.
+  unfold is_id. simpl. apply Nat.eqb_refl.
+Qed.
+
+Lemma LI_WI b ids ts : LI b [] ids ts -> WI b [] ts.
+Proof.
+  intros H i r Hin _ t Ht. destruct (H i t Ht) as (_ & _ & H3 & _).
+  destruct (fin t) eqn:Ef; auto; exfalso;
+    (rewrite H3 in * by (auto; congruence)); apply in_pend_of in Hin; rewrite H3 in Hin by (auto; congruence); destruct Hin.
 Qed.
